@@ -183,8 +183,23 @@ EdDelete(st) ==
     IF n = 0 THEN Ret(st, 1)
     ELSE IF st.row >= n THEN Ret(st, 0)         \* the current line lies beyond the text (after an undo): nothing to delete
     ELSE [st EXCEPT !.tab[1].lb = Lb!Edit(b.lb, st.row, st.row + 1, <<>>, FALSE), !.ret = 0]
+(* ":1": the first line becomes current (and is printed) *)
+EdTop(st) == IF Len(Cur(st).lb.lines) = 0 THEN Ret(st, 1) ELSE [st EXCEPT !.row = 0, !.ret = 0]
 EdUndo(st) == LET lb == Lb!Undo(Cur(st).lb) IN [st EXCEPT !.tab[1].lb = lb, !.ret = lb.ret]
 EdRedo(st) == LET lb == Lb!Redo(Cur(st).lb) IN [st EXCEPT !.tab[1].lb = lb, !.ret = lb.ret]
+
+(* the simple commands that can share a prompt line; no command boundary between them *)
+RECURSIVE RunLine(_, _)
+RunLine(st, cs) ==
+    IF cs = <<>> \/ st.quit THEN st
+    ELSE LET c == Head(cs)
+             s1 == CASE c.k = "w" -> Write(st, c.path, c.whole, c.beg, c.end, c.force, FALSE, c.fault)
+                     [] c.k = "d" -> EdDelete(st)
+                     [] c.k = "u" -> EdUndo(st)
+                     [] c.k = "redo" -> EdRedo(st)
+                     [] c.k = "e" -> Edit(st, c.path, c.force)
+                     [] c.k = "top" -> EdTop(st)
+         IN RunLine(s1, Tail(cs))
 
 (* one prompt line: the command, then the command boundary on whatever buffer is current afterwards *)
 Step(st, c) ==
@@ -197,6 +212,8 @@ Step(st, c) ==
                 [] c.k = "d"     -> EdDelete(s0)
                 [] c.k = "u"     -> EdUndo(s0)
                 [] c.k = "redo"  -> EdRedo(s0)
+                [] c.k = "top"   -> EdTop(s0)
+                [] c.k = "line"  -> RunLine(s0, c.cs)        \* several commands on one prompt line ("d|w|d")
                 [] c.k = "se"    -> IF c.opt = "aw" THEN [s0 EXCEPT !.aw = c.val] ELSE [s0 EXCEPT !.wa = c.val]
                 (* external events (not typed): another program touches or rewrites a file *)
                 [] c.k = "touch" -> IF s0.disk[c.path].ex THEN [s0 EXCEPT !.disk[c.path].mt = s0.now + 1000, !.now = s0.now + 1001] ELSE s0
